@@ -1,6 +1,136 @@
-/- Driver/C18 — stub until the property's model driver is written. -/
+/-
+Driver/C18 — runs the executable compaction model (`Model/Compaction.lean`) on protocol lines.
+Request/response grammar: see the head of `harness/src/bin/c18.rs`.
+-/
 import Driver.Common
-open Drv
+import Cascette.Model.Compaction
+import Cascette.Spec.Compaction
+open Cascette Drv
+open Cascette.Model.Compaction
+open Cascette.Spec.Compaction (Span)
+
+def genByte (i seed : Nat) : Byte :=
+  BitVec.ofNat 8 ((i + seed + (i / 256) * 37 + (i / 65536) * 101) % 256)
+
+def parseFile (t : String) : Option Bytes :=
+  match t.splitOn ":" with
+  | ["hex", h] => parseHex h
+  | ["gen", l, s] =>
+    match l.toNat?, s.toNat? with
+    | some l, some s => if l > 2 ^ 26 then none else some ((List.range l).map (genByte · s))
+    | _, _ => none
+  | _ => none
+
+def parsePairs (t : String) : Option (List (String × String)) :=
+  if t == "-" then some [] else
+  (t.splitOn ",").mapM fun p =>
+    match p.splitOn ":" with
+    | [a, b] => some (a, b)
+    | _ => none
+
+def parseSpans (t : String) : Option (List Span) := do
+  let ps ← parsePairs t
+  ps.mapM fun (a, b) => do
+    let o ← a.toNat?
+    let l ← b.toNat?
+    if o ≥ 2 ^ 64 ∨ l ≥ 2 ^ 64 then none else pure ⟨o, l⟩
+
+def parseSegs (t : String) : Option (List Seg) := do
+  let ps ← parsePairs t
+  ps.mapM fun (a, b) => do
+    let u ← b.toNat?
+    if u ≥ 2 ^ 64 then none
+    else if a == "F" then pure ⟨true, u⟩
+    else if a == "T" then pure ⟨false, u⟩
+    else none
+
+def fmtSpans (l : List Span) : String :=
+  if l.isEmpty then "-" else ",".intercalate (l.map fun s => s!"{s.off}:{s.len}")
+
+def fnv64 (b : Bytes) : UInt64 :=
+  b.foldl (fun h x => (h ^^^ x.toNat.toUInt64) * 0x00000100000001b3) 0xcbf29ce484222325
+
+def fileObs (b : Bytes) : String :=
+  let s := s!"len={b.length} fp={hexFixed 16 (fnv64 b).toNat}"
+  if b.length ≤ 32 then s ++ " data=" ++ hexOf b else s
+
+def f64 (n : Nat) : Float := n.toUInt64.toFloat
+
+def fmtList (l : List Nat) : String :=
+  if l.isEmpty then "-" else ".".intercalate (l.map toString)
+
+def budgetOk (b : Nat) : Bool := b ≤ 2 ^ 28
+
+def handle : List String → String
+  | ["val", sp] =>
+    match parseSpans sp with
+    | some spans =>
+      let (s, ok) := validateSpans spans
+      (if ok then "ok " else "err ") ++ fmtSpans s
+    | none => "bad-op"
+  | ["mover", b] =>
+    match b.toNat? with
+    | some b =>
+      if !budgetOk b then "bad-op" else
+      let m := moverNew b
+      s!"{m.bufSize} {m.bufCount}"
+    | none => "bad-op"
+  | ["xc", b, f, sp] =>
+    match b.toNat?, parseFile f, parseSpans sp with
+    | some b, some f, some spans =>
+      if !budgetOk b then "bad-op" else
+      let r := extractCompact (moverNew b) f spans
+      match r.saved with
+      | some n => s!"ok saved={n} " ++ fileObs r.file
+      | none => "err " ++ fileObs r.file
+    | _, _, _ => "bad-op"
+  | ["cip", b, f, src, dst, n] =>
+    match b.toNat?, parseFile f, src.toNat?, dst.toNat?, n.toNat? with
+    | some b, some f, some src, some dst, some n =>
+      if !budgetOk b || dst > 2 ^ 26 || n > 2 ^ 26 || src > 2 ^ 40 then "bad-op" else
+      let (f', m, ok) := compactInPlace (moverNew b) f src dst n
+      (if ok then "ok" else "err") ++ s!" moved={m.moved} " ++ fileObs f'
+    | _, _, _, _, _ => "bad-op"
+  | ["mv", b, sf, so, df, dof, n] =>
+    match b.toNat?, parseFile sf, so.toNat?, parseFile df, dof.toNat?, n.toNat? with
+    | some b, some sf, some so, some df, some dof, some n =>
+      if !budgetOk b || dof > 2 ^ 22 || n > 2 ^ 26 || so > 2 ^ 40 then "bad-op" else
+      let (d', m, ok) := moveData (moverNew b) sf so df dof n
+      (if ok then "ok" else "err") ++ s!" moved={m.moved} " ++ fileObs d'
+    | _, _, _, _, _, _ => "bad-op"
+  | ["plan", thr, size, sg] =>
+    match parseHexNat thr, size.toNat?, parseSegs sg with
+    | some tb, some size, some segs =>
+      if tb.length ≠ 8 || size ≥ 2 ^ 64 then "bad-op" else
+      let bits := tb.foldl (fun a x => a * 256 + x) 0
+      let t := Float.ofBits bits.toUInt64
+      let isSource := fun (used : Nat) => decide (f64 used / f64 size < t)
+      match planMerge isSource size segs with
+      | none => "panic"
+      | some p =>
+        let ms := if p.moves.isEmpty then "-" else
+          ",".intercalate (p.moves.map fun m => s!"{m.src}+{m.srcOff}>{m.dst}@{m.dstOff}+{m.len}")
+        s!"{ms} total={p.total} srcs={fmtList p.srcs} tgts={fmtList p.tgts}"
+    | _, _, _ => "bad-op"
+  | ["arch", pre, ws] =>
+    match pre.toNat? with
+    | some pre =>
+      let totals? : Option (List Nat) :=
+        if ws == "-" then some [] else (ws.splitOn ",").mapM String.toNat?
+      match totals? with
+      | some totals =>
+        if pre > 2 ^ 23 || totals.any (fun x => x < 39 || x > 2 ^ 22) || totals.length > 64 then "bad-op" else
+        -- the file content is not an observable of this op: lengths only
+        let grew := fun (new old : Nat) =>
+          decide (new - old > 64 * 1024 * 1024) ||
+            (if old > 0 then decide (f64 new / f64 old > 2.0) else true)
+        let utilLow := fun (used mapped : Nat) => decide (f64 used / f64 mapped < 1.0 - 0.3)
+        let a := totals.foldl (fun a t => archWrite grew a (List.replicate t 0)) (archOpen (List.replicate pre 0))
+        let (a', n, r) := archCompact utilLow a
+        s!"compacted={n} reclaimed={r} len={a'.file.length}"
+      | none => "bad-op"
+    | none => "bad-op"
+  | _ => "bad-op"
 
 def main : IO Unit := do
-  loopPure (← IO.getStdin) (← IO.getStdout) (fun _ => "bad-op")
+  loopPure (← IO.getStdin) (← IO.getStdout) handle
